@@ -114,7 +114,9 @@ func verifTopic(tag, name string, chans []*verifChannelJSON, paused bool) *verif
 // number nondeterministic.
 func verifNodeStats(tag string, shape int, paused bool) verifStatsReply {
 	r := verifStatsReply{Version: "1.3.0", Health: "OK", Topics: []*verifTopicJSON{}}
-	ch := func(t, c string, clients int) *verifChannelJSON { return verifChannel(tag+"."+t+"."+c, c, clients, paused) }
+	ch := func(t, c string, clients int) *verifChannelJSON {
+		return verifChannel(tag+"."+t+"."+c, c, clients, paused)
+	}
 	tp := func(t string, chans ...*verifChannelJSON) {
 		if chans == nil {
 			chans = []*verifChannelJSON{}
@@ -142,16 +144,16 @@ func verifNodeStats(tag string, shape int, paused bool) verifStatsReply {
 }
 
 type verifChanAgg struct {
-	key                                                                  string
-	topic, channel                                                       string
+	key                                                                              string
+	topic, channel                                                                   string
 	depth, backend, inflight, deferred, msgs, zone, region, global, requeue, timeout int64
-	clientCount, e2e                                                     int
-	paused                                                               bool
-	nodes                                                                []string
-	nodeMsgs                                                             []int64
-	clientOf                                                             []*verifClientJSON
-	clientNode                                                           []string
-	clients                                                              int
+	clientCount, e2e                                                                 int
+	paused                                                                           bool
+	nodes                                                                            []string
+	nodeMsgs                                                                         []int64
+	clientOf                                                                         []*verifClientJSON
+	clientNode                                                                       []string
+	clients                                                                          int
 }
 
 // GetNSQDStats over 1..N nsqd, any subset failing, any of the shapes per node, with and
